@@ -15,6 +15,7 @@ import (
 
 	"github.com/paulsonkoly/chess-3/board"
 	"github.com/paulsonkoly/chess-3/chess"
+	"github.com/paulsonkoly/chess-3/move"
 	"github.com/paulsonkoly/chess-3/params"
 	"github.com/paulsonkoly/chess-3/search"
 	"pgregory.net/rapid"
@@ -36,20 +37,31 @@ type Case struct {
 	Soft   int      `json:"soft"`             // soft node limit, 0 = none
 	Stop   string   `json:"stop,omitempty"`   // "", "before", "info:<j>" (closed from inside the j-th info line), "timer:<us>"
 	Warm   []Case   `json:"warm,omitempty"`   // searches run before on the same engine (tables carry over)
+	SweepK int      `json:"sweep_k,omitempty"` // abort sweep: the request is repeated with every hard node budget 0..SweepK
 	Params []string `json:"params,omitempty"` // spsa build only: name=value settings
 	GoArgs string   `json:"go,omitempty"`     // UCI leg: arguments of the go command
 }
 
 var ttSizes = []int{32, 64, 3200, 32 * 1024, 1 << 20}
 
-var engMu sync.Mutex
-var engines = map[int]*search.Search{}
+// pooled engine instances are reused across cases without Clear (tables carry over); the
+// cases run on an instance since it was created are logged so that a failure can be replayed
+// from a fresh instance. An instance is retired after logLimit cases.
+type pooled struct {
+	s   *search.Search
+	log []Case
+}
 
-func engineFor(size int) *search.Search {
+const logLimit = 150
+
+var engMu sync.Mutex
+var engines = map[int]*pooled{}
+
+func engineFor(size int) *pooled {
 	engMu.Lock()
 	defer engMu.Unlock()
-	if engines[size] == nil {
-		engines[size] = search.New(size)
+	if engines[size] == nil || len(engines[size].log) >= logLimit {
+		engines[size] = &pooled{s: search.New(size)}
 	}
 	return engines[size]
 }
@@ -161,14 +173,51 @@ func one(c Case, rec *evid.Rec) (err error) {
 	if err := applyParams(c); err != nil {
 		return err
 	}
-	s := engineFor(c.TT)
+	pe := engineFor(c.TT)
+	s := pe.s
+	if c.SweepK > 0 {
+		sw := c
+		sw.SweepK = 0
+		for k := 0; k <= c.SweepK; k++ {
+			sw.Nodes = k
+			if err := run1(sw, s, rec); err != nil {
+				return fmt.Errorf("abort sweep, budget %d: %v", k, err)
+			}
+		}
+		if rec != nil {
+			pe.log = append(pe.log, brief(c))
+		}
+		return nil
+	}
 	for _, w := range c.Warm {
 		w.TT = c.TT
-		w.Warm = nil
 		if err := one(w, nil); err != nil {
 			return fmt.Errorf("warm-up: %v", err)
 		}
 	}
+	err = run1(c, s, rec)
+	if rec != nil {
+		pe.log = append(pe.log, brief(c))
+	}
+	return err
+}
+
+// withHistory returns c preceded by everything that ran on its engine instance before it.
+func withHistory(c Case) Case {
+	engMu.Lock()
+	defer engMu.Unlock()
+	if pe := engines[c.TT]; pe != nil && len(pe.log) > 0 {
+		log := pe.log
+		if n := len(log); n > 0 && reflect.DeepEqual(log[n-1], brief(c)) {
+			log = log[:n-1]
+		}
+		c.Warm = append(append([]Case{}, log...), c.Warm...)
+	}
+	return c
+}
+
+// run1 performs one search request on s and judges it.
+func run1(c Case, s *search.Search, rec *evid.Rec) error {
 	ri, err := setup(c)
 	if err != nil {
 		return err
@@ -278,7 +327,27 @@ func one(c Case, rec *evid.Rec) (err error) {
 	r2 := srch.Run(s, ri.b, true, search.WithDepth(1), search.WithNodes(500))
 	c2 := c
 	c2.Nodes = 500
-	return judge(c2, ri, before, r2, false, "follow-up search on the same instance")
+	if err := judge(c2, ri, before, r2, false, "follow-up search on the same instance"); err != nil {
+		// diagnostics: the same request again on this instance, and on a fresh one
+		r3 := srch.Run(s, ri.b, true, search.WithDepth(1), search.WithNodes(500))
+		r4 := srch.Run(search.New(1<<20), ri.b, false, search.WithDepth(1), search.WithNodes(500))
+		tt, hit := diagTT(s, ri.b)
+		return fmt.Errorf("%v [again on the same instance: %s; on a fresh 1 MB instance: %s %q; IsCheckmate=%v InCheck=%v playable=%d; %s hit=%v]", err, r3.Describe(), r4.Describe(), r4.Raw, ri.b.IsCheckmate(), ri.b.InCheck(ri.b.STM), len(eng.Playable(diagStore, ri.b)), tt, hit)
+	}
+	return nil
+}
+
+var diagStore = move.NewStore()
+
+func diagTT(s *search.Search, b *board.Board) (string, bool) {
+	out := "children at depth 0:"
+	for _, m := range eng.Playable(diagStore, b) {
+		r := b.MakeMove(m)
+		cr := srch.Run(s, b, true, search.WithDepth(0), search.WithNodes(500))
+		out += fmt.Sprintf(" %v=>%d(%dn)", m, int(cr.Score), cr.Nodes)
+		b.UndoMove(m, r)
+	}
+	return out, false
 }
 
 func brief(c Case) Case { c.Warm = nil; return c }
@@ -562,7 +631,7 @@ func TestC06(t *testing.T) {
 		if spsa {
 			rec.Note("spsa build: tunable parameters set to drawn in-range values through params.Set")
 		}
-		rec.Rapid(t, "search", evid.Pick(6000, 120000), func(t *rapid.T) {
+		rec.Rapid(t, "search", evid.Pick(40000, 600000), func(t *rapid.T) {
 			c := drawRoot(t, rec)
 			drawLimits(t, &c)
 			if gen.Chance(t, 1, 4, "warm") { // earlier searches of the same game leave their traces in the tables
@@ -576,11 +645,11 @@ func TestC06(t *testing.T) {
 				rec.Sample("search", c)
 			}
 			if err := one(c, rec); err != nil {
-				rec.Fail("search", err.Error(), c)
+				rec.Fail("search", err.Error(), withHistory(c))
 				t.Fatalf("%v", err)
 			}
 		})
-		rec.Rapid(t, "abort_sweep", evid.Pick(64, 640), func(t *rapid.T) {
+		rec.Rapid(t, "abort_sweep", evid.Pick(256, 1600), func(t *rapid.T) {
 			c := drawRoot(t, rec)
 			c.TT = ttSizes[gen.Draw(t, 0, len(ttSizes)-1, "tt")]
 			c.Depth = 0
@@ -590,18 +659,15 @@ func TestC06(t *testing.T) {
 			if spsa {
 				c.Params = drawParams(t)
 			}
-			K := evid.Pick(400, 4000)
-			for k := 0; k <= K; k++ {
-				c.Nodes = k
-				if err := one(c, rec); err != nil {
-					rec.Fail("abort_sweep", err.Error(), c)
-					t.Fatalf("%v", err)
-				}
+			c.SweepK = evid.Pick(400, 4000)
+			if err := one(c, rec); err != nil {
+				rec.Fail("abort_sweep", err.Error(), withHistory(c))
+				t.Fatalf("%v", err)
 			}
 			rec.Class("sweep_roots")
 		})
 		if !spsa {
-			rec.Rapid(t, "uci_go", evid.Pick(1500, 20000), func(t *rapid.T) {
+			rec.Rapid(t, "uci_go", evid.Pick(6000, 60000), func(t *rapid.T) {
 				c := drawRoot(t, rec)
 				c.GoArgs = drawGoArgs(t)
 				if rec.WantSample("uci_go") {
